@@ -43,6 +43,12 @@ CLAIMS.update({
  "C19": ("partial: binCount for every count < 2^53 in the SMT floating-point theory; the rounded Prometheus counter by an inductive step and under every interleaving of two concurrent Incs; printMetrics pairs each label with its own counter and zeroMetrics resets all of them; unique-address figures for every update sequence up to the bound",
          "HyperLogLog accuracy, HMAC masking, the journal reader and prometheus exposition are outside the claim", SEQ + " (QF_BV + FloatingPoint)"),
 })
+CLAIMS.update({
+ "C05": ("partial: the real turbotunnelMode, QueuePacketConn, ClientMap and encapsulation code under the engine's scheduler with two concurrent carriers: every upstream packet is attributed to the ClientID of the carrier that sent it (order and bytes kept), every downstream packet reaches only the carrier that presented the addressed ClientID (also when the sender recycles its buffer), a carrier without the token never reaches the session layer, and the session key (ClientID.String) is injective",
+         "'one session = exactly one accepted connection whose stream continues' and the one-minute gap are KCP/smux session logic and outside the claim; schedules with a bounded number of preemptions", SEQ + "; schedule choices enumerated with sleep sets and a preemption bound"),
+ "C20": ("partial by construction: a vector-clock happens-before monitor (go, channels, mutexes, RWMutex, Once, WaitGroup, atomics) runs inside the bounded concurrent explorations of the broker (2 polls + 1 client, 1 poll + 2 clients; thorough 2+2), the server's two-carrier scenario, the client's End/Collect races, the rounded counter and (thorough) the redialing adapter; any pair of conflicting accesses with a site in repository code that some explored schedule leaves unordered is reported",
+         "the statement is about race-detector runs of whole binaries under load, which solver-based checking cannot perform; only accesses visible to the interpreter are monitored (not inside stubbed libraries)", "happens-before (vector clock) monitor over the schedules enumerated by the symbolic executor"),
+})
 REASONS = {
  "C01": "end-to-end exactly-once in-order delivery is produced by kcp-go/smux/pion/gorilla running in three processes under faults; ~40k lines of third-party I/O- and timer-driven code cannot be encoded by an SSA->SMT executor, and stubbing KCP/smux away removes the mechanism the property is about (DESIGN.md §4 C01); its repo-owned links are decided under C05, C09, C17, C18",
 }
